@@ -211,7 +211,10 @@ def seqMonStep (c : B64) (m : SeqMon) : SeqOp → SeqObs → SeqMon × Option Cl
            let stale := !hdrsSame hdrs (generateParamHeaders c ps a) &&
              m.seen.any (fun e => e.1 == n && e.2 != ps && hdrsSame hdrs (generateParamHeaders c e.2 a))
            (if out != .okSame then
-              (if stale then some .seqStaleCall else if hdrs.isEmpty then some .seqLostCall else some .seqAgree)
+              -- the client did its part (exactly the headers the current definition demands): the server judges the call
+              -- by something else than the definition it has registered and lists
+              (if hdrsSame hdrs (generateParamHeaders c ps a) then some .seqRefusedExact
+               else if stale then some .seqStaleCall else if hdrs.isEmpty then some .seqLostCall else some .seqAgree)
             else match genMonitor c ps a hdrs with
               | some cl => if stale then some .seqStaleCall else some cl
               | none => none)
